@@ -90,7 +90,9 @@ fn main() {
         i += 1;
     }
     let shared: SharedReport = Arc::new(Mutex::new(Report::new(&a.prop)));
-    spawn_watchdog(Arc::clone(&shared), a.out.clone(), 30);
+    // per-case watchdog: 30 s (quick) / 120 s (thorough), x30 for cases that declare themselves long
+    let wd = std::env::var("VERIF_WATCHDOG_S").ok().and_then(|v| v.parse().ok()).unwrap_or(if a.tier == "thorough" { 120 } else { 30 });
+    spawn_watchdog(Arc::clone(&shared), a.out.clone(), wd);
     match a.prop.as_str() {
         "C01" => engines::e1::run_c01(&a, &shared),
         "C02" => engines::e1::run_c02(&a, &shared),
